@@ -266,7 +266,8 @@ type caseT struct {
 	// Validate(validation.WithPartial(true)); 2 Bind(WithValidationOptions(validation.WithPartial(true)));
 	// 3 Bind(WithPartial(), WithPresence(pm)) with the presence map computed by the handler;
 	// 4 the body is first bound into a map with BindOnly (body and presence are cached for the request), then Bind(WithPartial());
-	// 5 another JSON request is served first (the pooled context comes back), then as 0; Presence() must be nil before the handler binds
+	// 5 another JSON request is served first (the pooled context comes back), then as 0; Presence() must be nil before the handler binds;
+	// 6 the generic helper app.BindPatch[T] (compiled types only)
 	AppVia int `json:",omitempty"`
 	// Variant: 1 = the options are given to validation.New (base configuration of a fresh Validator), the call
 	// passes none of them; 2 = as 1, and the call overrides a different base WithMaxErrors;
@@ -310,7 +311,7 @@ var tagsFor = map[string][]string{
 	"pstring":  {"", "required", "omitempty,min=3"},
 	"struct":   {"", "required", ""},
 	"pstruct":  {"", "required", "omitempty"},
-	"sstring":  {"", "min=1", "max=2", "required", "dive,min=3", "min=1,dive,required", "omitempty,dive,max=4", "min=2", "dive,oneof=red green"},
+	"sstring":  {"", "min=1", "max=2", "required", "dive,min=3", "min=1,dive,required", "omitempty,dive,max=4", "min=2", "dive,oneof=red green", "max=5,dive,oneof=dive jump", "omitempty,max=5,dive,oneof=dive jump"},
 	"ssstring": {"", "dive,dive,min=2", "min=1,dive,max=1,dive,max=3", "dive,min=1"},
 	"astring":  {"", "dive,min=3", "dive,required", "required"},
 	"spstruct": {"", "max=1", "dive", "required,dive", "min=1", "dive,required"},
@@ -445,7 +446,7 @@ func genValue(r *hx.Rand, f FieldT, depth int) any {
 		out := make([]any, n)
 		for i := range out {
 			if r.Chance(1, 5) {
-				out[i] = hx.Pick(r, []string{"red", "blue"})
+				out[i] = hx.Pick(r, []string{"red", "blue", "dive", "jump"})
 			} else {
 				out[i] = secret(r, hx.Pick(r, []int{0, 1, 2, 3, 4, 5, 6}))
 			}
@@ -692,6 +693,9 @@ func genCase(r *hx.Rand, tier string) caseT {
 	c.ViaApp = c.Mode == 0 && r.Chance(1, 4)
 	if c.ViaApp {
 		c.AppVia = r.Intn(6)
+		if c.Named != "" && r.Chance(1, 2) {
+			c.AppVia = 6
+		}
 	}
 	if !c.ViaApp && r.Chance(1, 6) {
 		c.Variant = r.Range(1, 3)
@@ -1222,6 +1226,17 @@ func observe(c *caseT, rt reflect.Type, secrets []string) (o obsT) {
 					var first map[string]any
 					_ = ac.BindOnly(&first)
 					verr = ac.Bind(ptr.Interface(), app.WithPartial(), app.WithValidationOptions(opts...))
+				case 6:
+					switch c.Named {
+					case "FullA":
+						_, verr = app.BindPatch[FullA](ac, app.WithValidationOptions(opts...))
+					case "FullE":
+						_, verr = app.BindPatch[FullE](ac, app.WithValidationOptions(opts...))
+					case "FullU":
+						_, verr = app.BindPatch[FullU](ac, app.WithValidationOptions(opts...))
+					default:
+						verr = ac.Bind(ptr.Interface(), app.WithPartial(), app.WithValidationOptions(opts...))
+					}
 				default:
 					verr = ac.Bind(ptr.Interface(), app.WithPartial(), app.WithValidationOptions(opts...))
 				}
@@ -1577,7 +1592,7 @@ func emit(id string, c caseT, st *hx.Stats) string {
 		st.Count("mode_" + []string{"partial", "full", "runall", "interface"}[c.Mode])
 		st.Count("obs_" + o.kind)
 		if c.ViaApp {
-			st.Count("via_app_context_" + []string{"bind_withpartial", "bindonly_then_validate", "bind_validationoption_partial", "bind_withpresence", "second_bind_in_request", "after_another_request"}[c.AppVia])
+			st.Count("via_app_context_" + []string{"bind_withpartial", "bindonly_then_validate", "bind_validationoption_partial", "bind_withpresence", "second_bind_in_request", "after_another_request", "generic_bindpatch"}[c.AppVia])
 		}
 		if c.Variant != 0 {
 			st.Count("variant_" + []string{"", "base_options", "base_options_overridden", "validate_with_partial_option"}[c.Variant])
